@@ -33,6 +33,8 @@ CONSTANTS
   Free = FALSE
   NTargets = 4
   NAttrs = 0
+  NDimProps = 0
+  NDimShapes = 0
   NSnips = 0
   NLex = 0
   MaxLine = %(maxline)d
@@ -43,7 +45,7 @@ CHECK_DEADLOCK FALSE
 """
 
 CLEAN_ACTIONS = ["Word", "OpenStyle", "CloseStyle", "PlainLink", "OpenLink", "CloseLink", "OpenExt", "CloseExt",
-                 "OpenRef", "CloseRef", "ReuseRef", "EndLine", "Heading", "ParaLine", "ParagraphBreak", "PreLine",
+                 "OpenRef", "CloseRef", "ReuseRef", "DefSep", "EndLine", "Heading", "ParaLine", "ParagraphBreak", "PreLine",
                  "ListLine", "OpenTable", "Caption", "NextRow", "Cell", "CellSep", "CloseTable", "OpenDiv", "CloseDiv",
                  "End"]
 
